@@ -157,3 +157,90 @@ Proof.
   - pose proof (filter_le_filter pr_pending pr_eor _ H0). lia.
   - pose proof (filter_length_le _ pr_eor (peers_of (rl_run evs))). lia.
 Qed.
+
+(* ---------------------------------------------------------------- the order of the rows *)
+From Coq Require Import Permutation.
+
+Lemma bytes_le_total : forall a b, bytes_le a b = false -> bytes_le b a = true.
+Proof.
+  induction a as [|x a IH]; intros b H; [discriminate|].
+  destruct b as [|y b]; [reflexivity|]. cbn [bytes_le] in *.
+  destruct (x <? y) eqn:Hxy; [discriminate|]. destruct (y <? x) eqn:Hyx; [reflexivity|]. now apply IH.
+Qed.
+
+Lemma skey_le_total : forall a b, skey_le a b = false -> skey_le b a = true.
+Proof.
+  intros [x|x] [y|y] H; cbn [skey_le] in *; try discriminate.
+  - apply N.leb_gt in H. apply N.leb_le. lia.
+  - now apply bytes_le_total.
+Qed.
+
+Lemma ins_row_perm : forall x l, Permutation (x :: l) (ins_row x l).
+Proof.
+  intros x l. induction l as [|y t IH]; cbn [ins_row]; [reflexivity|].
+  destruct (skey_le (fst x) (fst y)); [reflexivity|].
+  transitivity (y :: x :: t); [apply perm_swap|]. now apply perm_skip.
+Qed.
+
+Lemma sort_rows_perm : forall l, Permutation l (sort_rows l).
+Proof.
+  induction l as [|x t IH]; cbn [sort_rows]; [reflexivity|].
+  transitivity (x :: sort_rows t); [now apply perm_skip|apply ins_row_perm].
+Qed.
+
+Lemma ins_row_sorted : forall x l, sortedb (map fst l) = true -> sortedb (map fst (ins_row x l)) = true.
+Proof.
+  intros x l. induction l as [|y t IH]; intro H; [reflexivity|].
+  cbn [ins_row]. destruct (skey_le (fst x) (fst y)) eqn:Hxy.
+  - cbn [map sortedb] in *. rewrite Hxy. exact H.
+  - apply skey_le_total in Hxy.
+    assert (Ht : sortedb (map fst t) = true).
+    { cbn [map sortedb] in H. destruct (map fst t) eqn:E; [reflexivity|]. apply andb_true_iff in H. exact (proj2 H). }
+    specialize (IH Ht). destruct t as [|z t'].
+    + cbn [ins_row map sortedb]. now rewrite Hxy.
+    + cbn [ins_row] in *. destruct (skey_le (fst x) (fst z)) eqn:Hxz.
+      * cbn [map sortedb] in *. rewrite Hxy. exact IH.
+      * cbn [map sortedb] in *. apply andb_true_iff in H. rewrite (proj1 H). exact IH.
+Qed.
+
+Lemma sort_rows_sorted : forall l, sortedb (map fst (sort_rows l)) = true.
+Proof. induction l as [|x t IH]; [reflexivity|]. cbn [sort_rows]. now apply ins_row_sorted. Qed.
+
+Lemma row_key_guarded : forall sb r, exists k, row_key true sb r = Some k.
+Proof.
+  intros [k|] r; [|eexists; reflexivity]. unfold row_key.
+  destruct (beqb k k_addr); [eexists; reflexivity|].
+  destruct (beqb k k_sys_name); [eexists; reflexivity|].
+  destruct (beqb k k_sys_desc); [eexists; reflexivity|].
+  destruct (sort_value_guarded k (rr_state r)) as [v ->]. eexists; reflexivity.
+Qed.
+
+Lemma keyed_from_guarded : forall sb rs i, exists l, keyed_from true sb i rs = Some l /\ map snd l = map (fun j => i + N.of_nat j) (seq 0 (length rs)).
+Proof.
+  intros sb rs. induction rs as [|r t IH]; intro i; [exists []; split; reflexivity|].
+  destruct (row_key_guarded sb r) as [k Hk]. destruct (IH (i + 1)) as [l [Hl Hs]].
+  exists ((k, i) :: l). cbn [keyed_from]. rewrite Hk, Hl. split; [reflexivity|].
+  cbn [map snd length seq]. f_equal; [cbn; lia|]. rewrite Hs. rewrite <- seq_shift, map_map. apply map_ext. intro j. lia.
+Qed.
+
+(* The rows of the page, for every key (known or not), order and population: a
+   permutation of the population's rows (each router once, with ITS key), and the
+   keys are non-decreasing down the page - up the page for sort_order=desc. *)
+Theorem page_rows_sorted_by_key : forall sb so rs,
+  exists keyed rows,
+    keyed_from true sb 0 rs = Some keyed /\
+    map snd keyed = map N.of_nat (seq 0 (length rs)) /\
+    page_rows true sb so rs = Some rows /\
+    Permutation keyed rows /\
+    sortedb (in_reading_order so (map fst rows)) = true.
+Proof.
+  intros sb so rs. destruct (keyed_from_guarded sb rs 0) as [l [Hl Hs]].
+  exists l. unfold page_rows. rewrite Hl. eexists. split; [reflexivity|]. split; [exact Hs|]. split; [reflexivity|].
+  unfold in_reading_order. destruct (is_desc so).
+  - split; [transitivity (sort_rows l); [apply sort_rows_perm|apply Permutation_rev]|].
+    rewrite map_rev, rev_involutive. apply sort_rows_sorted.
+  - split; [apply sort_rows_perm|apply sort_rows_sorted].
+Qed.
+
+Lemma discriminating_population : all_keys_disagree rl_discriminating = true.
+Proof. vm_compute. reflexivity. Qed.
